@@ -84,7 +84,7 @@ def units(tier):
                             [(1, 1, 3, 3), (2, 1, 3, 2), (2, 2, 3, 2)]):
         specs.extend(gen.enum_grammars(n_nt, n_t, p, r, allow_cyclic=False))
     specs = specs[:: (3 if tier == "quick" else 1)]
-    for i in range(60 if tier == "quick" else 800):
+    for i in range(60 if tier == "quick" else 4000):
         s = gen.random_grammar(rng, allow_cyclic=False)
         if s:
             specs.append(s)
@@ -236,8 +236,12 @@ def run_unit(u):
             for text in inputs:
                 case = {"grammar": gtxt, "action_modes": mode, "input": text}
                 try:
-                    r1 = render(p1.parse(text))
+                    with budget(2):
+                        r1 = render(p1.parse(text))
                 except (parglare.SyntaxError, parglare.exceptions.DisambiguationError):
+                    continue
+                except BudgetExceeded:
+                    bump(st, "lr_timeouts")
                     continue
                 except Exception as e:
                     res["violations"].append({"kind": "on-the-fly-actions-raise", "case": case,
@@ -249,8 +253,12 @@ def run_unit(u):
                 if r1n is None:
                     continue
                 try:
-                    tree = p2.parse(text)
-                    r2 = render(p2.call_actions(tree))
+                    with budget(4):
+                        tree = p2.parse(text)
+                        r2 = render(p2.call_actions(tree))
+                except BudgetExceeded:
+                    bump(st, "lr_timeouts")
+                    continue
                 except Exception as e:
                     res["violations"].append({"kind": "deferred-actions-raise", "case": case,
                                               "observed": type(e).__name__ + ": " + str(e)[:100]})
@@ -259,13 +267,17 @@ def run_unit(u):
                     res["violations"].append({"kind": "deferred-differs-from-on-the-fly", "case": case,
                                               "observed": r2, "expected": r1})
                 try:
-                    f = gp.parse(text)
-                    if len(f) == 1:
+                    with budget(2):
+                        f = gp.parse(text)
+                        nsol = f.solutions
+                    if nsol == 1:
                         st["glr_route"] += 1
                         r3 = render(gp.call_actions(f[0]))
                         if r3 != r1:
                             res["violations"].append({"kind": "glr-route-differs", "case": case,
                                                       "observed": r3, "expected": r1})
+                except BudgetExceeded:
+                    bump(st, "glr_timeouts")
                 except Exception as e:
                     res["violations"].append({"kind": "glr-route-raises", "case": case,
                                               "observed": type(e).__name__ + ": " + str(e)[:100]})
